@@ -134,11 +134,36 @@ def bounded_sink_on_failure(p):
             t = t.sink(sink, input_keys='a')
           return list(t.make().iterate([{'a': i} for i in range(4)]))
         got = expect(run)
+        closed_at_once = sink.closed
+        import gc
+        gc.collect()
+        if not S.check(sink.closed == 1, dict(failing_record=bad, sink_first=sink_first, named_stages=named, what='closed after garbage collection', closed=sink.closed),
+                       f'record {bad} fails (sink_first={sink_first}, named={named}): even after gc.collect() the sink was closed {sink.closed} time(s)', cls=f'sink-gc-{sink_first}-{named}-{bad}'):
+          return S.result()
+        sink.closed = closed_at_once
         n_seen = bad + 1 if sink_first else bad
         ok = got[0] == 'raise' and sink.closed == 1 and [x[0][0] for x in sink.seen] == list(range(n_seen))
         if not S.check(ok, dict(failing_record=bad, sink_first=sink_first, named_stages=named, closed=sink.closed, run=got[0]),
                        f'record {bad} fails (sink_first={sink_first}, named={named}): run {got}, sink saw {[x[0][0] for x in sink.seen]}, closed {sink.closed} time(s)', cls=f'sink-close-upstream={sink_first}-named={named}-bad={bad}'):
           return S.result()
+  return S.result()
+
+
+def bounded_filter_skip(p):
+  """filter with error skipping: a predicate that raises drops only that record, the others keep their own verdict."""
+  S = Search(p, dict(records=6, failing='every subset of <=2 records', predicate='even value'))
+  n = 6
+  for k in range(0, 3):
+    for bad in itertools.combinations(range(n), k):
+      def pred(v, bad=bad):
+        if v in bad:
+          raise ValueError('predicate failed')
+        return v % 2 == 0
+      recs = [{'id': i, 'v': i} for i in range(n)]
+      got = expect(lambda: list(transform.TreeTransform().filter(pred, input_keys='v').make().iterate(recs, ignore_error=True)))
+      exp = [r for r in recs if r['v'] not in bad and r['v'] % 2 == 0]
+      if not S.check(got == ('ok', exp), dict(failing=list(bad)), f'filter(even) with failing records {bad}: {got}; expected {exp}', cls=f'filter-skip-{k}'):
+        return S.result()
   return S.result()
 
 
@@ -153,10 +178,12 @@ def bounded_key_validation(p):
       ('assign SELF after a key', lambda: T().assign('c', fn=f_neg, input_keys='a').assign(Key.SELF, fn=f_neg, input_keys='a')),
       ('assign key after apply output of the same key', lambda: T().apply(fn=f_neg, input_keys='a', output_keys='c').assign('c', fn=f_neg, input_keys='c')),
       ('assign without keys', lambda: T().assign(fn=f_neg, input_keys='a')),
+      ('dict-form assign whose WRITTEN key duplicates an earlier key', lambda: T().assign('score', fn=f_neg, input_keys='a').assign(dict(score='hi', low='lo'), fn=lambda a: {'hi': a, 'lo': -a}, input_keys='a')),
       ('fn_batch_size without batch_size', lambda: T().apply(fn=f_neg, input_keys='a', fn_batch_size=2)),
   ]
   good = [
       ('assign two different keys', lambda: T().assign('c', fn=f_neg, input_keys='a').assign('d', fn=f_neg, input_keys='a')),
+      ('dict-form assign whose SOURCE name equals an existing key', lambda: T().assign('hi', fn=f_neg, input_keys='a').assign(dict(top='hi'), fn=lambda a: {'hi': a}, input_keys='a')),
       ('apply resets the key set', lambda: T().assign('c', fn=f_neg, input_keys='a').apply(fn=f_neg, input_keys='c', output_keys='z').assign('c', fn=f_neg, input_keys='z')),
   ]
   for name, mk in bad:
